@@ -401,6 +401,8 @@ def render_function(name, timeout_ms=None):
     contracts = C.all_contracts(th)
     c = contracts[name]
     real = {t: k for t, k in contracts.items() if hasattr(k, "ensures")}
+    if name == C.UNI + "__str__":
+        real[C.RNG + "__str__"] = C.RangeStrAtCallSite()       # the union's text is checked modularly over the texts of its ranges
     use = [t for t in real if t != name]
     if hasattr(c, "ensures"):
         return verify.verify_function(ix, th, c, use_contracts=use, contracts=real, loop_specs=C.loop_specs(th), timeout_ms=timeout_ms)
